@@ -26,7 +26,16 @@ Definition lock_verdict (u : run) : nat * string * string * bool :=
   | inl h => if lock_final h then (0, "", "", false) else (1, "leak", hd "" h, false)
   | inr pos => match nth_error (u_trace u) pos with
                | Some (e, _) => (1, ev_tag e, ev_id e,
-                                 existsb (fun p => match fst p with EDb "Get" [JStr i] => String.eqb i (ev_id e) | _ => false end) (firstn pos (u_trace u)))
+                                 (* loaded as a forwarding collection: Get of that id after InboxForwarding's Exists test *)
+                                 let fix after_exists (l : list (ev * ans)) (seen : bool) : bool :=
+                                   match l with
+                                   | [] => false
+                                   | (EDb op args, _) :: r =>
+                                       if String.eqb op "Exists" then after_exists r true
+                                       else if seen && String.eqb op "Get" && match args with [JStr i] => String.eqb i (ev_id e) | _ => false end then true
+                                       else after_exists r seen
+                                   | _ :: r => after_exists r seen
+                                   end in after_exists (firstn pos (u_trace u)) false)
                | None => (1, "?", "", false)
                end
   end.
